@@ -270,7 +270,8 @@ def gen_vcf(draw, *, nsamples=(1, 3), ncontigs=(1, 3), nrecords=(1, 12), ploidy_
             missing=True, partial_missing=True, no_gt_records=False, multiallelic=True, symbolic=False,
             duplicates=True, no_alt=False, phasing=("none", "PS", "HP"), extra_fields=True, ps_type="Integer",
             kinds=("snv", "ins", "del", "mnp"), interleave=True, hom_phased=False, stale_ps=False, filters=True,
-            max_alleles_in_gt=None):
+            max_alleles_in_gt=None, modes=("het", "het", "het", "hom", "any", "missing", "partial"), phase_odds=3,
+            new_set_odds=2):
     """Generic VCF model generator. `phasing`: encodings that may be chosen *per sample*.
     Returns (model, truth) where truth[(record index, sample index)] describes the call:
        {"alleles": tuple|None, "phased": bool, "set": id|None, "enc": "PS"|"HP"|None}"""
@@ -329,7 +330,7 @@ def gen_vcf(draw, *, nsamples=(1, 3), ncontigs=(1, 3), nrecords=(1, 12), ploidy_
                 t = {"alleles": None, "phased": False, "set": None, "enc": None, "ploidy": ploidy}
                 if has_gt:
                     amax = nalts if max_alleles_in_gt is None else min(nalts, max_alleles_in_gt)
-                    mode = draw(st.sampled_from(["het", "het", "het", "hom", "any", "missing", "partial"]))
+                    mode = draw(st.sampled_from(list(modes)))
                     if mode == "missing" and not missing:
                         mode = "het"
                     if mode == "partial" and not (partial_missing and ploidy >= 2):
@@ -353,7 +354,7 @@ def gen_vcf(draw, *, nsamples=(1, 3), ncontigs=(1, 3), nrecords=(1, 12), ploidy_
                     complete = all(a is not None for a in alleles)
                     het = complete and len(set(alleles)) > 1
                     e = enc[si]
-                    want_phase = e != "none" and draw(st.integers(0, 3)) > 0 and len(alleles) >= 2
+                    want_phase = e != "none" and draw(st.integers(0, phase_odds)) > 0 and len(alleles) >= 2
                     if want_phase and not het and not (hom_phased or not complete):
                         want_phase = False
                     if want_phase and not complete and not partial_missing:
@@ -361,7 +362,7 @@ def gen_vcf(draw, *, nsamples=(1, 3), ncontigs=(1, 3), nrecords=(1, 12), ploidy_
                     phased_flag = False
                     if want_phase:
                         # choose a phase set: continue an open one or start a new one
-                        if open_sets[si] and draw(st.integers(0, 2)) > 0:
+                        if open_sets[si] and draw(st.integers(0, new_set_odds)) > 0:
                             sid = draw(st.sampled_from(open_sets[si])) if interleave else open_sets[si][-1]
                         else:
                             sid = pos if draw(st.integers(0, 4)) > 0 else draw(st.integers(1, 99999))
